@@ -37,7 +37,7 @@ theorem centre_stepP (ctx : SweepCtx k H qd numiter) (hexp : ∀ x : ℝ, ‖k.d
       PInv H qd (⟨s.A.setIfInBounds c A1, s.qD, s.BL, s.BR⟩ : Sweep 𝕜) c := by
   have hc := h.can.hc
   obtain ⟨A1, h1⟩ := localStep_isOk (k := k) (L := getBL s c) (R := getBR s c) (W := H.A.getD c zeroT4)
-    (A := getA s c) (cnorm_pos_flat3 ctx.norm h.pos) hm (ctx.eigh _ _) δ
+    (A := getA s c) ctx.norm (cnorm_pos_flat3 ctx.norm h.pos) hm (ctx.eigh _ _) δ
   obtain ⟨hF, hHerm⟩ := canon_local h.can ctx.hH ctx.herm
   obtain ⟨a0, a1, a2, hfrob⟩ := localStep_norm ctx.norm hF hHerm (ctx.eigh _ _) hexp hδ h1
   have hX := HistWf.localStep_wf hH h.sp hc (Nat.le_refl _) (Nat.le_refl _) (h.sp.site c hc) h1
